@@ -806,6 +806,7 @@ func (c *checker) reference(progs []prog) {
 	})
 	// (b) valid file contents from a clean first run of the writer programs (local)
 	jobs = nil
+	broken := false
 	mid := func(op string, d int) prog { return prog{Shape: "mid", Op: op, Data: d} }
 	have := map[prog]bool{}
 	add := func(p prog) {
@@ -852,12 +853,20 @@ func (c *checker) reference(progs []prog) {
 		m := map[int][]byte{}
 		for s, fo := range res.After {
 			m[s] = fo.Bytes
-			if fo.Strict != "" || !fo.Complete {
-				ev.Fatal("clean first run of %s: file of shard %d fails the completeness checks (complete=%v %s strict: %s)", p.Name(), s, fo.Complete, fo.Err, fo.Strict)
-			}
 		}
 		c.valid[p.Name()] = m
+		// the files of a clean run are judged like all others; without valid files
+		// nothing else can be enumerated
+		vs := c.judgeFirst(j, res)
+		for _, v := range vs {
+			c.r.Violate(v.sig, v.what, v.detail)
+		}
+		broken = broken || len(vs) > 0
 	})
+	if broken {
+		c.r.NotExhaustive("a clean first run without pre-existing files already violates the property; nothing else was enumerated")
+		c.r.Finish(ev.Coverage{"evaluations": len(jobs), "distinct_nontrivial": 0, "rule": "clean first runs only (see not_exhaustive_because)"})
+	}
 	for _, p := range progs {
 		switch {
 		case p.reads():
